@@ -209,9 +209,17 @@ def main():
         thms = theorems_of(prop)
         have_props = os.path.exists(os.path.join(LEAN, "Spake2Verif", "Properties", prop + ".lean"))
 
+        def lake(target):
+            rc_, out_ = sh(["lake", "build", target], cwd=LEAN, timeout=3000)
+            if rc_ != 0 and not re.search(r"error: \S+?\.lean:\d+:\d+", out_):
+                # a failure without any Lean diagnostic is a tool hiccup (interrupted job, stale trace), not a
+                # broken proof: build once more before judging
+                rc_, out_ = sh(["lake", "build", target], cwd=LEAN, timeout=3000)
+            return rc_, out_
+
         def build_all():
-            rc_d, out_d = sh(["lake", "build", "driver"], cwd=LEAN, timeout=3000)
-            rc_p, out_p = (sh(["lake", "build", module], cwd=LEAN, timeout=3000) if have_props and rc_d == 0 else (rc_d, out_d))
+            rc_d, out_d = lake("driver")
+            rc_p, out_p = (lake(module) if have_props and rc_d == 0 else (rc_d, out_d))
             return rc_d, out_d, rc_p, out_p
         rc_d, out_d, rc_p, out_p = build_all()
         if (rc_d != 0 or rc_p != 0):
